@@ -1139,9 +1139,6 @@ func (x *verifC07Run) fork(why string) {
 
 	ctx := "fork(" + why + ")"
 	oracle := "restart_image"
-	if why == "failed-write" {
-		oracle = "write_failure_rollback"
-	}
 	img := x.m.clone()
 	purged, trimmed, kept := img.restart(env)
 	cm2, err := NewCircuitMap(x.cfg(bk, env, true))
